@@ -42,8 +42,10 @@ def comp_stack(depth, limit, v, side=0):
     for i in range(depth):
         t = TaskD("n%d" % i, Y(0, TASK(t)))
     if side:
-        # a sibling whose batch item is already scheduled when the guard fires further down the other branch
-        t = TaskD("top", Y(4, TASK(t), TASK(fam.chain("side", 2, 0, v + 30))))
+        # a sibling whose three batch items are already scheduled (it runs first) when the guard fires further
+        # down the other branch: the aborted computation leaves a pending batch bigger than any of the canary's
+        sib = TaskD("side", Y(17, ITEM(0, v + 30), ITEM(0, v + 31), ITEM(0, v + 32)))
+        t = TaskD("top", Y(4, TASK(sib), TASK(t)))
     old = [None]
 
     def setup():
